@@ -166,6 +166,64 @@ def block_twin(b, s0):
     return out + ".build() }"
 
 
+# ---------------------------------------------------------------------------------------------
+#  derive(Animate) shapes (C17)
+def shape_struct(sh, name="T"):
+    """Rust source of the struct(s) of a shape; returns (source, target type name, animated slots, present slots)"""
+    slots = sh["slots"]
+    present = [p for p in range(1, 7) if slots[p - 1]["ty"] != "none"]
+    marked = [] if sh["markmode"] == 0 else [p for p in present if slots[p - 1]["mark"]]
+    order = present[sh["order"] % len(present):] + present[:sh["order"] % len(present)]
+    vis = ["", "pub ", "pub(crate) "][sh["vis"]]
+    fields = []
+    for p in order:
+        sl = slots[p - 1]
+        f = ""
+        if sl["doc"]: f += "    /// documentation of field a%d\n" % p
+        if p in marked: f += "    #[animate]\n"
+        else: f += {0: "", 1: "    #[allow(dead_code)]\n", 2: "    #[rustfmt::skip]\n", 3: "    #[doc(hidden)]\n"}[sl["attr"]]
+        if p in marked and sl["attr"] == 1: f += "    #[allow(dead_code)]\n"      # a second attribute AFTER the marker
+        f += "    pub a%d: %s,\n" % (p, sl["ty"])
+        fields.append(f)
+    if sh["remote"]:
+        src = "#[derive(Clone, Debug, Default, PartialEq)]\npub struct Foreign {\n%s}\n" % "".join("    pub a%d: %s,\n" % (p, slots[p - 1]["ty"]) for p in order)
+        src += "#[derive(Animate)]\n#[animate(remote = \"Foreign\")]\n%sstruct %s {\n%s}\n" % (vis, name, "".join(fields))
+        target = "Foreign"
+    else:
+        src = "#[derive(Animate, Clone, Debug, Default, PartialEq)]\n%sstruct %s {\n%s}\n" % (vis, name, "".join(fields))
+        target = name
+    return src, target, present
+
+
+def shape_module(i, line):
+    sh = line["shape"]
+    src, target, present = shape_struct(sh)
+    animated = line["animated"]
+    slots = sh["slots"]
+    cast = lambda p: slots[p - 1]["ty"]
+    sent = ", ".join("a%d: %s as %s" % (p, ("%d.5" % (900 + p)) if p <= 3 else str(240 + p), cast(p)) for p in present)
+    srcv = ", ".join("a%d: %s as %s" % (p, ("%d.25" % (40 + p)) if p <= 3 else str(40 + p), cast(p)) for p in present)
+    get = " ".join("%d => v.a%d as f64," % (p, p) for p in present)
+    setk = " ".join("%d => k.a%d(v as %s)," % (p, p, cast(p)) for p in animated)
+    m = "pub mod sh%d {\n    #![allow(dead_code, unused_variables, unused_mut)]\n    use mina::prelude::*;\n    use serde_json::Value;\n" % i
+    m += "".join("    " + l + "\n" for l in src.split("\n") if l)
+    m += "    pub type Target = %s;\n" % target
+    m += "    pub fn sentinel() -> Target { Target { %s } }\n" % sent
+    m += "    pub fn source() -> Target { Target { %s } }\n" % srcv
+    m += "    pub fn get(v: &Target, p: usize) -> f64 { match p { %s _ => f64::NAN } }\n" % get
+    m += "    pub fn build(line: &Value) -> <T as Animate>::Timeline {\n        let tm = &line[\"tm\"];\n"
+    m += "        let mut b = T::timeline().duration_seconds(tm[\"cyc\"].as_i64().unwrap() as f32 * 0.125).delay_seconds(tm[\"del\"].as_i64().unwrap() as f32 * 0.125)\n"
+    m += "            .repeat(harness::common::repeat_of(tm[\"rep\"].as_i64().unwrap())).reverse(tm[\"rev\"].as_bool().unwrap()).default_easing(harness::common::easing(line[\"de\"].as_i64().unwrap()));\n"
+    m += "        for kf in line[\"kfs\"].as_array().unwrap() {\n            let mut k = T::keyframe(kf[\"pos\"].as_i64().unwrap() as f32 / 8.0);\n"
+    m += "            for (pi, d) in kf[\"d\"].as_array().unwrap().iter().enumerate() { if let Some(v) = d.as_array().unwrap().first() { let v = v.as_i64().unwrap(); k = match pi + 1 { %s _ => unreachable!(\"setter for a field outside the animated set\") }; } }\n" % setk
+    m += "            let e = kf[\"e\"].as_i64().unwrap(); if e != 0 { k = k.easing(harness::common::easing(e)); }\n            b = b.keyframe(k);\n        }\n        b.build()\n    }\n"
+    m += "    pub fn copy_timeline(src: &Target) -> <T as Animate>::Timeline { T::timeline().keyframe(T::keyframe_from(src, 1.0)).build() }\n"
+    a0 = animated[0]
+    m += "    pub fn override_timeline(src: &Target) -> <T as Animate>::Timeline { T::timeline().keyframe(T::keyframe_from(src, 1.0).a%d(77 as %s).a%d(78 as %s)).build() }\n" % (a0, cast(a0), a0, cast(a0))
+    m += "    pub fn run(line: &Value, t: &mut harness::tl::Tally, i: usize) { crate::run_shape(line, t, i, &build(line), &copy_timeline(&source()), &override_timeline(&source()), %d, &sentinel, &source(), &get); }\n}\n" % a0
+    return m
+
+
 def main():
     mode, src, outdir = sys.argv[1:4]
     lines = load(src)
@@ -185,6 +243,35 @@ def main():
         with open(os.path.join(outdir, "blocks.json"), "w") as f:
             json.dump([{"i": i, "tokens": block_tokens(l["block"])} for i, l in enumerate(lines)], f)
         print(json.dumps({"blocks": len(lines)}))
+        return
+    if mode == "shapes":
+        with open(os.path.join(outdir, "shapes.rs"), "w") as f:
+            f.write("// generated by bin/gen_macros.py from MC_Shapes output - do not edit\n")
+            for i, l in enumerate(lines):
+                f.write(shape_module(i, l))
+            f.write("pub const N: usize = %d;\n" % len(lines))
+            f.write("pub fn run_all(lines: &[serde_json::Value], t: &mut harness::tl::Tally) {\n")
+            for i in range(len(lines)):
+                f.write("    sh%d::run(&lines[%d], t, %d);\n" % (i, i, i))
+            f.write("}\n")
+        # compile-fail: the setter of an excluded field must not exist; control: the setter of an animated field does
+        ill = []
+        for i, l in enumerate(lines):
+            src, target, present = shape_struct(l["shape"])
+            excluded = [p for p in present if p not in l["animated"]]
+            if excluded and len([x for x in ill if x["class"] == "excluded-setter"]) < 8:
+                p = excluded[i % len(excluded)]
+                ill.append({"class": "excluded-setter", "shape": i, "field": "a%d" % p, "src": "use mina::prelude::*;\n" + src + "pub fn f() { let _ = T::keyframe(0.0).a%d(1 as %s); }\n" % (p, l["shape"]["slots"][p - 1]["ty"])})
+                a = l["animated"][0]
+                ill.append({"class": "control-animated-setter", "shape": i, "field": "a%d" % a, "src": "use mina::prelude::*;\n" + src + "pub fn f() { let _ = T::keyframe(0.0).a%d(1 as %s); }\n" % (a, l["shape"]["slots"][a - 1]["ty"])})
+        for j, it in enumerate(ill):
+            with open(os.path.join(outdir, "ill_%02d.rs" % j), "w") as f:
+                f.write(it.pop("src"))
+        with open(os.path.join(outdir, "ill.json"), "w") as f:
+            json.dump(ill, f)
+        with open(os.path.join(outdir, "shapes.json"), "w") as f:
+            json.dump([{"i": i, "struct": shape_struct(l["shape"])[0], "animated": l["animated"]} for i, l in enumerate(lines)], f)
+        print(json.dumps({"shapes": len(lines), "ill_formed": len(ill)}))
         return
     if mode == "sentences":
         with open(os.path.join(outdir, "sentences.rs"), "w") as f:
